@@ -728,7 +728,8 @@ def obs_for_coq(case, obs):
         return "oracle-only"
     if obs == "skip":
         return "skip"
-    head = [obs["before"], obs["cache_orig"], obs["struct_orig"]]
+    # True: every generated state must satisfy the hypotheses of restore_dump_identity (dumpable_b)
+    head = [obs["before"], obs["cache_orig"], obs["struct_orig"], True]
     if isinstance(obs["dump"], Err):
         return head + [obs["dump"]]
     if isinstance(obs["restore"], Err):
